@@ -1,6 +1,6 @@
 (* C09 — an application's answer goes back over the connection of the requester, once
    Statements copied from the proof files; each is closed by `exact`. *)
-From DV Require Prelude.Base Model.Ids Proofs.IdsP Model.Node Proofs.NodeC.
+From DV Require Prelude.Base Model.Ids Proofs.IdsP Model.Node Proofs.NodeA Proofs.NodeB Proofs.NodeC Proofs.NodeD Proofs.NodeF Proofs.NodeE.
 From Coq Require String List Lia Bool Arith ZArith.
 
 Module FromNodeC.
@@ -94,6 +94,43 @@ Theorem C09_raise_leaves_no_entry n cid m n' outs :
 Proof. exact (@NodeC.C09_raise_leaves_no_entry n cid m n' outs). Qed.
 End FromNodeC.
 
+Module FromNodeE.
+Import DV.Prelude.Base DV.Model.Node DV.Proofs.NodeC DV.Proofs.NodeF DV.Proofs.NodeE.
+Import Coq.micromega.Lia.
+Local Open Scope Z_scope.
+
+(* C: under wf_init_g + ce_guard (= reach_g of NodeD: the hypotheses of C13_one_conn_per_peer, reach_c, and
+   of C19_waiting_hosts, reach_nc, together), an answer that an application hands to the node goes out,
+   unchanged, on the very connection from which a request with its (hop-by-hop, end-to-end) pair was read
+   and delivered to an application earlier in the history *)
+Theorem C07_history_app_answers n0 evs1 ds i a evs2 cid a' :
+  NodeD.wf_init_g n0 -> NodeD.ce_guard n0 (evs1 ++ (ds, EAppAnswer i a) :: evs2)%list ->
+  List.In (OQueue cid a') (snd (step (fst (run n0 evs1)) ds (EAppAnswer i a))) -> o_req a' = false ->
+  a' = a /\
+  exists ms outs j m,
+    List.In (ERecv cid ms, outs) (trace n0 evs1) /\ List.In m ms /\ m_req m = true /\
+    m_hbh m = o_hbh a /\ m_e2e m = o_e2e a /\ List.In (ODeliver j m) outs.
+Proof. exact (@NodeE.C07_history_app_answers n0 evs1 ds i a evs2 cid a'). Qed.
+
+(* C, stated on a point of the history: the event, the state before it and its outputs *)
+Theorem C07_history_app_answers_at n0 evs nk i a outs cid a' :
+  NodeD.wf_init_g n0 -> NodeD.ce_guard n0 evs ->
+  List.In (nk, (EAppAnswer i a, outs)) (strace n0 evs) -> List.In (OQueue cid a') outs -> o_req a' = false ->
+  a' = a /\
+  exists evs1 ds evs2 ms outs0 j m,
+    evs = (evs1 ++ (ds, EAppAnswer i a) :: evs2)%list /\
+    List.In (ERecv cid ms, outs0) (trace n0 evs1) /\ List.In m ms /\ m_req m = true /\
+    m_hbh m = o_hbh a /\ m_e2e m = o_e2e a /\ List.In (ODeliver j m) outs0.
+Proof. exact (@NodeE.C07_history_app_answers_at n0 evs nk i a outs cid a'). Qed.
+
+(* D: when the requests read from a connection carry pairwise distinct (hop-by-hop, end-to-end) pairs, the
+   node hands that connection at most one answer per pair in the whole history *)
+Theorem C07_history_at_most_once n0 evs cid k :
+  NodeD.wf_init_g n0 -> NodeD.ce_guard n0 evs -> List.NoDup (req_keys_on cid evs) ->
+  (qans cid k (trace n0 evs) <= 1)%nat.
+Proof. exact (@NodeE.C07_history_at_most_once n0 evs cid k). Qed.
+End FromNodeE.
+
 Print Assumptions FromNodeC.C09_answer_shape.
 Print Assumptions FromNodeC.C09_to_requester.
 Print Assumptions FromNodeC.C09_entry_from_delivery.
@@ -103,3 +140,6 @@ Print Assumptions FromNodeC.C09_second_fails.
 Print Assumptions FromNodeC.C09_second_is_error.
 Print Assumptions FromNodeC.C09_removed_on_close.
 Print Assumptions FromNodeC.C09_raise_leaves_no_entry.
+Print Assumptions FromNodeE.C07_history_app_answers.
+Print Assumptions FromNodeE.C07_history_app_answers_at.
+Print Assumptions FromNodeE.C07_history_at_most_once.
